@@ -126,8 +126,8 @@ Lemma wf2_init_glue ins outn i :
 Proof.
   unfold wfs_init, leaf_init, wf2_init. destruct (id_tensor i) as [t|]; [|auto].
   cbv zeta. destruct (id_input i); [auto|]. simpl.
-  intros H L. apply andb_prop in H. destruct H as [H1 H2]. apply andb_prop in L. destruct L as [L1 L2].
-  rewrite H1, H2, L1, L2. reflexivity.
+  intros H L. apply andb_prop in H. destruct H as [H1 H2]. apply andb_prop in H2. destruct H2 as [H2 H3].
+  rewrite H1, H2, H3, L. reflexivity.
 Qed.
 Lemma forallb_glue {A} (P Q R : A -> bool) l :
   (forall x, P x = true -> Q x = true -> R x = true) ->
